@@ -39,7 +39,7 @@ theorem assignAddrs_good {N : Nat} : ∀ (l : List Stmt) (a : Nat), (∀ s ∈ l
           refine ⟨by simp [hl], ?_⟩
           intro x hx
           rcases List.mem_cons.mp hx with rfl | hx
-          · exact ⟨⟨hs.1.val, numV_good 0 hv, hs.1.choices, hs.1.rel, hs.1.needs, hs.1.unfixed⟩, hs.2⟩
+          · exact ⟨⟨hs.1.val, numV_good 0 hv, hs.1.codes, hs.1.choices, hs.1.rel, hs.1.needs, hs.1.unfixed⟩, hs.2⟩
           · exact hr2 x hx
         | diag => exact ⟨by simp, fun r h => by cases h⟩
         | internal => exact absurd hr hni
@@ -305,6 +305,32 @@ end
 
 /-! ### fixAll, finalSymTab -/
 
+/-- `fit_operand_width` raises no internal error when op code and post byte are not Python's `None` -/
+theorem fitWidth_ne_internal {s : Stmt} (h1 : s.pkg.opCode ≠ .pyNone) (h2 : s.pkg.postByte ≠ .pyNone) :
+    fitWidth s ≠ .internal := by
+  obtain ⟨a, ha⟩ := Value.hexLen?_isSome_of_ne_pyNone h1
+  obtain ⟨b, hb⟩ := Value.hexLen?_isSome_of_ne_pyNone h2
+  unfold fitWidth
+  rw [ha, hb]
+  dsimp only
+  repeat' split
+  all_goals simp
+
+/-- one step of the `fixAll` loop (`fix_addresses`, then `fit_operand_width`) on a statement of a good program -/
+theorem fixFit_good {N : Nat} {ss : List Stmt} (hlen : ss.length = N) (hall : ∀ s ∈ ss, StmtFix N s)
+    {i : Nat} {s : Stmt} (hs : ss[i]? = some s) : fixFit ss i s ≠ .internal := by
+  have hne := fixOne_good hlen hall hs
+  have hc := (hall s (List.mem_of_getElem? hs)).1.codes
+  unfold fixFit
+  cases h1 : fixOne ss i s with
+  | ok s1 =>
+    dsimp only
+    obtain ⟨v, rfl⟩ := fixOne_same h1
+    exact fitWidth_ne_internal hc.1 hc.2
+  | diag => simp
+  | internal => exact absurd h1 hne
+  | diverged => simp
+
 theorem fixAll_good {N : Nat} {ss : List Stmt} (hlen : ss.length = N)
     (hall : ∀ s ∈ ss, StmtFix N s) : ∀ (l : List Stmt) (i : Nat), (∀ j s, l[j]? = some s → ss[i + j]? = some s) →
     fixAll ss i l ≠ .internal := by
@@ -313,10 +339,10 @@ theorem fixAll_good {N : Nat} {ss : List Stmt} (hlen : ss.length = N)
   | nil => intro i _; simp [fixAll]
   | cons s rest ih =>
     intro i hl
-    unfold fixAll
+    rw [fixAll_cons]
     have h0 : ss[i]? = some s := by simpa using hl 0 s (by simp)
-    have hne := fixOne_good hlen hall h0
-    cases h1 : fixOne ss i s with
+    have hne := fixFit_good hlen hall h0
+    cases h1 : fixFit ss i s with
     | ok s' =>
       dsimp only
       have hrest := ih (i + 1) (fun j x hx => by
